@@ -51,6 +51,19 @@ def mutate(rng, prob, kw, d):
         kw["user_params"] = up
         kw["npt"] = 2 * prob["n"] + 1
         d.update(npt=kw["npt"], regression=2, momentum=True, user_params=up)
+    if d.get("proj") and prob["n"] >= 2 and "npt" not in kw and rng.random() < 0.35:
+        # projections with a GROWING point set (needs random initial directions): growing-phase points are stored unprojected, the
+        # returned x is their projection as it was evaluated (seeded C03_10 returned the stored point itself)
+        up = dict(kw.get("user_params", {}) or {})
+        up["init.random_initial_directions"] = True
+        up.pop("init.run_in_parallel", None)
+        up["growing.ndirs_initial"] = int(rng.integers(1, prob["n"]))
+        up["growing.num_new_dirns_each_iter"] = int(rng.integers(1, 3))
+        for k in ("regression.num_extra_steps", "regression.momentum_extra_steps"):
+            up.pop(k, None)
+        kw["user_params"] = up
+        kw["maxfun"] = int(rng.integers(3, 25))
+        d.update(randinit=True, growing=up["growing.ndirs_initial"], maxfun=kw["maxfun"], user_params=dict(up), proj_growing=True)
     # hard restarts whose later runs still improve: loose rhoend so that a run ends with budget left
     if d.get("restarts") != "soft" and rng.random() < 0.12:
         up = dict(kw.get("user_params", {}) or {})
